@@ -365,9 +365,22 @@ where
                 }
                 reported[input_normalised as usize] = true;
                 let beyond = (-c.offset - (c.r_size * c.b_out) as i64).max(0);
+                // classification of the case for known-finding selectors (computed from the case alone):
+                //  - the result cannot hold every bit of input * 2^offset
+                let truncates = (c.a_size * c.b_in) as i64 - c.offset > (c.r_size * c.b_out) as i64;
+                //  - whole result limbs that lie above the input once its limb grid has been moved down by the
+                //    (negative) offset rounded away from zero to a multiple of the input radix
+                let limbs_above = {
+                    let mut lo = c.offset / c.b_in as i64;
+                    if c.offset < 0 && c.offset % c.b_in as i64 != 0 {
+                        lo -= 1;
+                    }
+                    ((-lo * c.b_in as i64).clamp(0, (c.r_size * c.b_out) as i64) as usize) / c.b_out
+                };
                 rec.fail(json!({"op": format!("{:?}", c.op), "backend": B::NAME, "kind": "wrong_value", "case": c, "inner": inner,
                     "input_normalised": input_normalised, "shift_beyond_output_bits": beyond,
                     "cross_radix": c.b_in != c.b_out, "offset_negative": c.offset < 0, "err_units": err_units,
+                    "result_truncates_input": truncates, "result_limbs_above_input": limbs_above,
                     "input_digits": inp.iter().map(|x| x.to_string()).collect::<Vec<_>>(),
                     "prior_digits": pr.iter().map(|x| x.to_string()).collect::<Vec<_>>(),
                     "output_digits": out.iter().map(|x| x.to_string()).collect::<Vec<_>>(), "why": why}));
